@@ -210,9 +210,12 @@ theorem NetPol.portSetOf_pod (q : NPPort) (p : Pod) (ns : Option NsObj) (l : Lab
 
 /-! ### connection sets whose AllowAll form may carry entries
 
-`AddConnection` on the AllowAll form stores the entry next to the flag, so the fold of
-`ruleConnections` can leave `ConnSet.WF`; what it keeps is `ConnSet.WFE`. `Union` tests the flags
-first, so a `WFE` argument is as good as a `WF` one. -/
+Before its repair `AddConnection` on the AllowAll form stored the entry next to the flag, so the
+fold of `ruleConnections` could leave `ConnSet.WF`; what it kept is `ConnSet.WFE`, the invariant
+the theorems below are stated with. `Union` tests the flags first, so a `WFE` argument is as good
+as a `WF` one. Since the repair (`AddConnection` is a no-op on the AllowAll form, see
+`ConnSet.wf_addConnection`) the fold stays inside `WF`; `WFE` is kept as the weaker, sufficient
+invariant. -/
 
 namespace ConnSet
 
@@ -259,8 +262,12 @@ theorem wfe_checkIfAll {c : ConnSet} (h : c.WFE) : c.checkIfAll.WFE := by
   · exact h
 
 theorem wfe_addConnection {c : ConnSet} {ps : PortSet} (pr : Proto) (hc : c.WFE) (hp : ps.WF) :
-    (c.addConnection pr ps).WFE :=
-  wfe_checkIfAll (wfe_addConnectionRaw pr hc hp)
+    (c.addConnection pr ps).WFE := by
+  cases h : c.allowAll
+  · rw [addConnection_of_not_allowAll h]
+    exact wfe_checkIfAll (wfe_addConnectionRaw pr hc hp)
+  · rw [addConnection_of_allowAll h]
+    exact hc
 
 theorem isAllWithoutAllowAll_checkIfAll (c : ConnSet) :
     c.checkIfAll.isAllWithoutAllowAll = false := by
@@ -270,8 +277,12 @@ theorem isAllWithoutAllowAll_checkIfAll (c : ConnSet) :
   · rename_i h; simpa using h
 
 theorem isAllWithoutAllowAll_addConnection (c : ConnSet) (pr : Proto) (ps : PortSet) :
-    (c.addConnection pr ps).isAllWithoutAllowAll = false :=
-  isAllWithoutAllowAll_checkIfAll _
+    (c.addConnection pr ps).isAllWithoutAllowAll = false := by
+  cases h : c.allowAll
+  · rw [addConnection_of_not_allowAll h]
+    exact isAllWithoutAllowAll_checkIfAll _
+  · rw [addConnection_of_allowAll h]
+    simp [isAllWithoutAllowAll, h]
 
 /-- `Union` with a `WFE` argument stays well-formed -/
 theorem wf_union_wfe {c o : ConnSet} (hc : c.WF) (ho : o.WFE) : (c.union o).WF := by
@@ -322,7 +333,7 @@ theorem NetPol.rc_fold (dst : Option KPeer) (P : NPPort → Proto → Int → Pr
     refine ⟨c, ?_, hw, hi, ?_⟩
     · rw [List.foldlM_cons, hstep]; exact hc
     · intro pr x
-      rw [hden, ConnSet.den_addConnection, hmem]
+      rw [hden, ConnSet.den_addConnection _ _ hwf, hmem]
       simp only [List.mem_cons, exists_eq_or_imp, or_assoc]
 
 theorem NetPol.ruleConnections_of_steps (dst : Option KPeer) (P : NPPort → Proto → Int → Prop)
@@ -1143,14 +1154,16 @@ example : Spec.npPortMatches ⟨none, .name "http"⟩ (.pod web []) .TCP 8080 = 
     Spec.npPortMatches ⟨none, .name "http"⟩ (.pod web []) .TCP 8081 = false ∧
     Spec.npPortMatches ⟨none, .name "http"⟩ (.pod web []) .UDP 8080 = false := by decide
 
-/-- Theorem 1, why `WF` is not claimed: once the fold has reached All Connections, a further
-port clause is stored next to the AllowAll flag. The result is `WFE`, not `WF`, and `Union`
-normalises it. -/
+/-- Theorem 1, the case behind the weak invariant `WFE`: once the fold has reached
+All Connections, a further port clause used to be stored next to the AllowAll flag (result
+`⟨true, some TCP 80, none, none⟩`: `WFE`, not `WF`; `Union` normalised it). Since the repair of
+`AddConnection` (no-op on the AllowAll form) the result is All Connections itself; the theorems
+still state `WFE`, which `WF` implies. -/
 def dirtyPorts : List NPPort :=
   [⟨some .TCP, .all⟩, ⟨some .UDP, .all⟩, ⟨some .SCTP, .all⟩, ⟨none, .num 80 none⟩]
 example : (∀ q ∈ dirtyPorts, q.Valid) ∧
-    NetPol.ruleConnections dirtyPorts (some (.pod web none)) =
-      .ok ⟨true, some ⟨[⟨80, 80⟩], [], []⟩, none, none⟩ := by decide
+    NetPol.ruleConnections dirtyPorts (some (.pod web none)) = .ok (ConnSet.mk' true) := by decide
+/-- the value the unrepaired code produced -/
 example : ¬ (⟨true, some ⟨[⟨80, 80⟩], [], []⟩, none, none⟩ : ConnSet).WF ∧
     (⟨true, some ⟨[⟨80, 80⟩], [], []⟩, none, none⟩ : ConnSet).WFE ∧
     (ConnSet.mk' false).union ⟨true, some ⟨[⟨80, 80⟩], [], []⟩, none, none⟩ = ConnSet.mk' true := by
